@@ -71,7 +71,7 @@ EPOCH = {
     "epoch_ms": [("n", 10), ("ms", 3)],
     "epoch_us": [("n", 10), ("ms", 3), ("us", 3)],
 }
-EPOCH_TZ = ["UTC", "+0530", "-0800", "Etc/GMT-14", "UTC-03:30", "+1245", "EST", "local"]
+EPOCH_TZ = ["UTC", "+0530", "-0800", "Etc/GMT-14", "UTC-03:30", "+1245", "PST", "local"]
 
 
 def _written(parts):
@@ -154,8 +154,8 @@ def _tz_offset_s(tz):
     import re
     if tz in ("UTC", "local"):
         return 0
-    if tz == "EST":
-        return -5 * 3600
+    if tz == "PST":      # a table abbreviation that is not a tz-database name (those may have transitions: outside)
+        return -8 * 3600
     m = re.fullmatch(r"Etc/GMT([+-])(\d+)", tz)
     if m:
         return (-1 if m.group(1) == "+" else 1) * int(m.group(2)) * 3600
